@@ -1,12 +1,14 @@
 #!/bin/bash
-# usage: ./check.sh <property id> [quick|thorough]      run the check for one property
+# usage: ./check.sh <property id> [quick|thorough]      run the check(s) for one property
 #        ./check.sh build <cmd> [race]                   build one check binary only
-# Rebuilds the check binary from /repo's current working tree (overlay of add-only shims and of
-# seams regenerated from the current sources), runs it, and passes its exit status through.
+#        ./check.sh replay <file>                        print a replay artefact and re-run its property's quick check
+# Rebuilds the check binaries from /repo's current working tree (overlay of add-only shims and of
+# seams regenerated from the current sources), runs them, merges part evidence, and exits
+# 0 (held) / 1 (VIOLATION printed) / 2 (internal error of the harness).
 set -u
 cd "$(dirname "$0")"
 . ./env.sh
-mkdir -p .work .bin evidence replays
+mkdir -p .work .bin evidence/parts replays
 
 build() { # build <cmd> <race:0|1>
   local cmd=$1 race=$2 out=.bin/$1 flags=()
@@ -21,11 +23,22 @@ build() { # build <cmd> <race:0|1>
 }
 
 if [ "${1:-}" = build ]; then build "$2" "$([ "${3:-}" = race ] && echo 1 || echo 0)"; exit $?; fi
+if [ "${1:-}" = replay ]; then
+  cat "$2"; id=$(python3 -c "import json,sys; print(json.load(open(sys.argv[1]))['property'])" "$2") || exit 2
+  exec "$0" "$id" quick
+fi
 
 id=${1:?property id}; tier=${2:-${VERIF_TIER:-quick}}
-line=$(grep -P "^$id\t" checks.tsv) || { echo "unknown property $id" >&2; exit 2; }
-cmd=$(echo "$line" | cut -f2); race=$(echo "$line" | cut -f3); args=$(echo "$line" | cut -f4)
-build "$cmd" "$race" || { echo "INTERNAL: build of $cmd failed" >&2; exit 2; }
-bin=.bin/$cmd; [ "$race" = 1 ] && bin=.bin/$cmd.race
-export VERIF_TIER=$tier VERIF_BIN="$PWD/$bin"
-exec "$bin" "$id" "$tier" $args
+parts=$(python3 tools/parts.py list "$id")
+[ -n "$parts" ] || { echo "unknown property $id" >&2; exit 2; }
+rm -f "evidence/$id.json" evidence/parts/"$id".*.json
+rc=0
+while IFS=$'\t' read -r cmd part race args; do
+  build "$cmd" "$race" || { echo "INTERNAL: build of $cmd failed" >&2; exit 2; }
+  bin=.bin/$cmd; [ "$race" = 1 ] && bin=.bin/$cmd.race
+  VERIF_TIER=$tier VERIF_PART=$part VERIF_BIN="$PWD/$bin" "$bin" "$id" "$tier" $args
+  r=$?
+  if [ $r -eq 1 ]; then rc=1; elif [ $r -ne 0 ]; then echo "INTERNAL: $cmd ($part) exited $r" >&2; exit 2; fi
+done <<< "$parts"
+python3 tools/parts.py merge "$id" "$tier" || exit 2
+exit $rc
